@@ -57,3 +57,53 @@ Proof.
   intros j e' H1 H2 H3. apply (D j e'); try lia. rewrite Nat.sub_0_r. exact H3.
 Qed.
 Print Assumptions C07_recv_first_unacked.
+
+(* THE CONSUME LAG, for every state. An event younger than the configured lag is received and parked — no filter, handler or
+   Ack in that operation —, the parked consumer keeps waiting while the deadline (creation time + lag, on the workflow clock) has
+   not been reached, and only then is the event handled; if the role is lost meanwhile it is not handled at all (C11). Together:
+   whenever lag > 0 the handler starts at a clock reading >= created + lag. *)
+Theorem C07_lag_young_event_parked : forall c inst u idx e s,
+  next_event (unit_topic u) (w_log (o_w s)) 0 (get_cursor (o_w s) u) = Some (idx, e) ->
+  unit_lag c u > 0 -> e_created e + unit_lag c u > w_now (o_w s) ->
+  consume_iter c inst u s =
+  (d <- dispatch KRV true ;;
+   match d with
+   | DoOk | DoStale =>
+     emit (TRecv e) ;;; emit (TCall KTW [e_created e + unit_lag c u] RBlocked []) ;;; ret (PLag idx e (e_created e + unit_lag c u))
+   | _ => emit (TCall KRV [] (disp_res d) []) ;;; disp_ret d PRun
+   end) s.
+Proof. exact young_event_is_parked. Qed.
+Print Assumptions C07_lag_young_event_parked.
+
+Theorem C07_lag_not_elapsed_keeps_waiting : forall c inst u idx e deadline s,
+  o_lease s = true -> o_dead s = false -> deadline > w_now (o_w s) ->
+  proc_op c inst u (PLag idx e deadline) s = (emit (TCall KTW [deadline] RBlocked []) ;;; ret (PLag idx e deadline)) s.
+Proof. exact lag_not_elapsed_keeps_waiting. Qed.
+Print Assumptions C07_lag_not_elapsed_keeps_waiting.
+
+Theorem C07_lag_elapsed_then_handled : forall c inst u idx e deadline s,
+  o_lease s = true -> o_dead s = false -> deadline <= w_now (o_w s) ->
+  proc_op c inst u (PLag idx e deadline) s =
+  (emit (TCall KTW [deadline] ROk []) ;;; guarded c inst u true (after_lag c inst u idx e)) s.
+Proof. exact lag_elapsed_then_handled. Qed.
+Print Assumptions C07_lag_elapsed_then_handled.
+
+Theorem C07_lag_wait_cancelled_not_handled : forall c inst u idx e deadline s,
+  o_lease s = false \/ o_dead s = true ->
+  proc_op c inst u (PLag idx e deadline) s =
+  (emit (TCall KTW [deadline] RCancel []) ;;; guarded c inst u true (fail ECancel)) s.
+Proof. exact lag_wait_cancelled_not_handled. Qed.
+Print Assumptions C07_lag_wait_cancelled_not_handled.
+
+(* CONNECTOR EVENTS REACH THE CONNECTOR FUNCTION INTACT (connector.go). The connector event travels, JSON-encoded, in one header of
+   the generic event; [dec (enc e) = Some e] is the assumption about encoding/json (exercised by the connrt family on the real
+   functions); the generic event's ID is int64(fnv64(ID)) — a 64-bit signed integer, negative for about half of the IDs (C10). *)
+From WF Require Import model.Connector proofs.ConnectorProofs.
+Theorem C07_connector_round_trip : forall D (enc : cevent -> D) (dec : D -> option cevent),
+  (forall e, dec (enc e) = Some e) -> forall e, event_to_conn D dec (conn_to_event D enc e) = Some e.
+Proof. exact connector_round_trip. Qed.
+Print Assumptions C07_connector_round_trip.
+
+Theorem C07_connector_event_id_range : forall bs, (- 9223372036854775808 <= conn_event_id bs < 9223372036854775808)%Z.
+Proof. exact conn_event_id_range. Qed.
+Print Assumptions C07_connector_event_id_range.
